@@ -95,7 +95,7 @@ def universe(useed: int):
 
 
 # ------------------------------------------------------------------------------ execution
-_st = {"loaded": False, "seen": {}, "n": 0, "timeouts": set()}
+_st = {"loaded": False, "seen": {}, "n": 0, "timeouts": set(), "hist": []}
 
 
 def _load():
@@ -185,6 +185,8 @@ def gen_plan(seed, cfg):
 def run_plan(plan, cfg=None):
     if "pair" in plan:
         return _run_pair(plan)
+    if "single" in plan:
+        return _run_single(plan)
     _load()
     uni = universe(plan["universe_seed"])
     res = {"verdict": "ok", "violations": [], "stats": {}, "probes": {}, "skip": None}
@@ -205,6 +207,7 @@ def run_plan(plan, cfg=None):
             continue
         oc = execute(rq)
         _st["n"] += 1
+        _st["hist"].append(ri)
         stats["requests"] += 1
         if oc == "timeout":
             stats["timeouts"] += 1
@@ -225,9 +228,22 @@ def run_plan(plan, cfg=None):
         obs.append([ri, oc])
     if res["violations"]:
         res["verdict"] = "violation"
+        # the plan of record is this interpreter's whole history up to the disagreement: it replays in
+        # one fresh interpreter (the chunk alone would not)
+        bad_key = res["violations"][0]["detail"][0]
+        bad_ri = next(i for i in reversed(_st["hist"]) if uni[i]["key"] == bad_key)
+        single = {"hashseed": int(os.environ.get("PYTHONHASHSEED", "0") or 0), "reqs": list(_st["hist"])}
+        useed = plan["universe_seed"]
+        seed = plan["run_seed"]
+        plan.clear()
+        plan.update({"engine": "G", "run_seed": seed, "hashseed": single["hashseed"] % 8, "universe_seed": useed,
+                     "key_index": bad_ri, "single": single})
     res["stats"] = stats
     res["steps"] = stats["requests"]
     res["digest"] = hashlib.blake2b(json.dumps(obs).encode(), digest_size=8).hexdigest()
+    if "single" in plan:
+        res["digest"] = "single"
+        return res
     res["extra"] = {"g": {"pid": os.getpid(), "hashseed": int(os.environ.get("PYTHONHASHSEED", "0") or 0),
                           "start": start, "reqs": plan["reqs"], "obs": obs,
                           "universe_seed": plan["universe_seed"]}}
@@ -286,18 +302,45 @@ def _upto(reqs, ri):
     return reqs[: last + 1]
 
 
-def _child(useed, reqs, hashseed, timeout=600):
+def _child(useed, reqs, hashseed, timeout=600, every=None):
     env = dict(os.environ)
     env["PYTHONHASHSEED"] = str(hashseed)
     env["PYTHONPATH"] = VERIF
     env.pop("LD_PRELOAD", None)
     env["PYTHONDONTWRITEBYTECODE"] = "1"
-    p = subprocess.run([PYTHON, "-m", "tsim.engines.genhist"], input=json.dumps({"universe_seed": useed, "reqs": reqs}),
+    p = subprocess.run([PYTHON, "-m", "tsim.engines.genhist"], input=json.dumps({"universe_seed": useed, "reqs": reqs, "every": every}),
                        text=True, capture_output=True, env=env, cwd=VERIF, timeout=timeout)
     for line in p.stdout.splitlines():
         if line.startswith("@@"):
             return json.loads(line[2:]), None
     return None, f"child exit {p.returncode}: {p.stderr[-1500:]}"
+
+
+def _run_single(plan):
+    """One history in one fresh interpreter: every occurrence of the request must give one outcome."""
+    res = {"verdict": "ok", "violations": [], "stats": {}, "probes": {}, "skip": None, "digest": "single"}
+    ri = plan["key_index"]
+    side = plan["single"]
+    if side["reqs"].count(ri) < 2:
+        return res
+    try:
+        obs, err = _child(plan["universe_seed"], side["reqs"], side["hashseed"], every=ri)
+    except subprocess.TimeoutExpired:
+        res["verdict"] = "inconclusive"
+        res["skip"] = "child_timeout"
+        return res
+    if obs is None:
+        res["verdict"] = "harness_error"
+        res["error"] = err
+        return res
+    outs = [o for o in obs.get("every", []) if o != "timeout"]
+    if len(set(outs)) > 1:
+        res["verdict"] = "violation"
+        res["violations"] = [{"properties": ["C15"], "oracle": "same_request_different_output_in_one_process",
+                              "phase": "generate", "twin": 0,
+                              "detail": [universe(plan["universe_seed"])[ri]["key"], outs[0],
+                                         next(o for o in outs if o != outs[0])]}]
+    return res
 
 
 def _run_pair(plan):
@@ -335,6 +378,8 @@ def sample(plan, res):
     uni = universe(plan["universe_seed"])
     if "pair" in plan:
         return {"pair_history_lengths": [len(s["reqs"]) for s in plan["pair"]]}
+    if "single" in plan:
+        return {"history_length": len(plan["single"]["reqs"])}
     return {"chunk": [uni[i]["key"] for i in plan["reqs"][:6]], "chunk_length": len(plan["reqs"]),
             "verdict": res["verdict"], "digest": res.get("digest")}
 
@@ -347,6 +392,22 @@ def summarise_extra(agg):
 def shrink_candidates(plan):
     import copy
 
+    if "single" in plan:
+        ri = plan["key_index"]
+        reqs = plan["single"]["reqs"]
+        n = len(reqs)
+        chunk = max(1, n // 2)
+        while chunk >= 1 and n:
+            for start in range(0, n, chunk):
+                nb = reqs[:start] + reqs[start + chunk:]
+                if len(nb) < n and nb.count(ri) >= 2:
+                    p = copy.deepcopy(plan)
+                    p["single"]["reqs"] = nb
+                    yield p
+            if chunk == 1:
+                break
+            chunk //= 2
+        return
     if "pair" not in plan:
         return
     ri = plan["key_index"]
@@ -378,10 +439,13 @@ def _main():
     os.dup2(2, 1)
     _load()
     uni = universe(spec["universe_seed"])
-    last = {}
+    last = {"every": []}
     for ri in spec["reqs"]:
         oc = execute(uni[ri])
-        last[str(ri)] = "refused" if oc.startswith("refused") else oc
+        oc = "refused" if oc.startswith("refused") else oc
+        last[str(ri)] = oc
+        if spec.get("every") == ri:
+            last["every"].append(oc)
     out_fd.write("@@" + json.dumps(last) + "\n")
     out_fd.flush()
 
